@@ -7,6 +7,7 @@ mod mvcc;
 mod wal;
 mod rdf;
 mod conc;
+mod lpg;
 mod txstress;
 mod conc_txm;
 mod conc_buf;
@@ -26,6 +27,7 @@ fn main() {
         "wal" => wal::main(&opts),
         "rdf" => rdf::main(&opts),
         "conc" => conc::main(&opts),
+        "lpg" => lpg::main(&opts),
         "txstress" => txstress::main(&opts),
         _ => {
             eprintln!("unknown subcommand {cmd}");
